@@ -61,6 +61,9 @@ def C03(tier, seed):
     p = hist_plan(["C03"], tier, seed, tokens=("spl", "t22fee"), must={"swap": 50, "swap_v2": 50, "two_hop_swap": 10, "two_hop_swap_v2": 10},
                   explanation="SwapBounds on balance deltas of every successful swap; two-hop swaps: per-leg price direction / bounds / limit, amount used in full unless the specified "
                               "leg's limit was reached, thresholds on realised amounts; toy instance: SwapBounds as invariant over all interleavings")
+    # the toy instance with explicit price limits (inside a tick, exactly on a tick) and real slippage thresholds
+    p["models"] += [{"name": "MC_Limits", "module": "MC_Whirlpool", "cfg": "MC_Limits_q.cfg" if tier == "quick" else "MC_Limits.cfg", "timeout": 7200},
+                    {"name": "MC_Limits_cov", "module": "MC_Whirlpool", "cfg": "MC_Limits_cov.cfg", "timeout": 900, "workers": 1}]
     shards, worlds, attempts = (2, 3, 120) if tier == "quick" else (8, 12, 400)
     for s_ in range(shards):
         p["drivers"].append({"name": f"twohop_{s_}", "args": ["twohop", "--seed", str(seed * 100 + 50 + s_), "--worlds", str(worlds), "--attempts", str(attempts)]})
